@@ -15,7 +15,7 @@ func init() { register("C18", checkC18) }
 const mutilRel = "hlog/internal/mutil"
 
 func checkC18(r *Run) {
-	r.Explain = "Decides request isolation as ownership (no schedule needed) and the response-proxy accounting as path tables: ISOL hlog.NewHandler stores in the request context a logger obtained by With().Logger() from the configured logger in the same request activation and never writes the configured logger; every UpdateContext call in hlog is made on the pointer returned by zerolog.Ctx(<context derived from this request>); package hlog has no package-level variables and no request-level closure writes a variable captured from a construction-time scope (nothing mutable is shared between requests); PROXY in mutil the status code and the wroteHeader flag are stored only by WriteHeader, together, only when no header was written yet, and before the call is forwarded; Write forces WriteHeader(200) before the underlying Write and adds exactly the underlying Write's count on every path (also on error); ReadFrom (no tee) forces the header first and adds the underlying ReadFrom's count; Status/BytesWritten return those fields; A24 every unchecked capability assertion in fancyWriter/flushWriter methods is covered by the guard under which WrapWriter constructs that type; AccessHandler's callback reads Status/BytesWritten of the very proxy it passed down. A11 (shared with C05): Logger.With, through which NewHandler derives each request's logger, stores a freshly allocated context on every path (never a view of the configured logger's bytes). A13 (shared with C06): the event pool discipline — a double put makes two requests share one event. A13d: the console's pooled buffer goes back empty on every path (the next request's line does not start with the previous request's rejected one). ISOL field-added-whenever-present: a field handler's UpdateContext is control-dependent only on 'has a key/value' conditions, never on a negative lookup outcome. HOOKS (shared with C03/C19): Logger.Hook stores a fresh slice, so per-request loggers that add hooks share no array."
+	r.Explain = "Decides request isolation as ownership (no schedule needed) and the response-proxy accounting as path tables: ISOL hlog.NewHandler stores in the request context a logger obtained by With().Logger() from the configured logger in the same request activation and never writes the configured logger; every UpdateContext call in hlog is made on the pointer returned by zerolog.Ctx(<context derived from this request>); package hlog has no package-level variables and no request-level closure writes a variable captured from a construction-time scope (nothing mutable is shared between requests); PROXY in mutil the status code and the wroteHeader flag are stored only by WriteHeader, together, only when no header was written yet, and before the call is forwarded; Write forces WriteHeader(200) before the underlying Write and adds exactly the underlying Write's count on every path (also on error); ReadFrom (no tee) forces the header first and adds the underlying ReadFrom's count; Status/BytesWritten return those fields; A24 every unchecked capability assertion in fancyWriter/flushWriter methods is covered by the guard under which WrapWriter constructs that type; AccessHandler's callback reads Status/BytesWritten of the very proxy it passed down. A11 (shared with C05): Logger.With, through which NewHandler derives each request's logger, stores a freshly allocated context on every path (never a view of the configured logger's bytes). A13 (shared with C06): the event pool discipline — a double put makes two requests share one event. A13d: the console's pooled buffer goes back empty on every path (the next request's line does not start with the previous request's rejected one). ISOL field-added-whenever-present: a field handler's UpdateContext is control-dependent only on 'has a key/value' conditions, never on a negative lookup outcome. HOOKS (shared with C03/C19): Logger.Hook stores a fresh slice, so per-request loggers that add hooks share no array. A18 (C09's rule, binary build): the CBOR string header length equals the payload length at every size."
 	r.NotDec = "Concurrent request schedules as such (covered only through no-sharing). With a tee installed ReadFrom counts twice; Tee is outside the property's call alphabet (observation)."
 	r.Assume = []string{"net/http gives every request its own *http.Request and context"}
 	p := r.Use("J")
